@@ -63,7 +63,7 @@ PROPS = {
                 "(set, batch_set, possibly reading first) on one cached manager, each parked before and after every call of the data layer or "
                 "(hook) where the cache is about to store records and released one call at a time by an explicit schedule - all 16 prefixes for "
                 "one reader against one writer in every api variant, all 512 prefixes for two reads against read+two writes, thousands of random "
-                "task sets and schedules - must agree with the extracted protocol model on the data layer's final record, the cache's final "
+                "task sets and schedules, a third of them with cache flushes in between - must agree with the extracted protocol model on the data layer's final record, the cache's final "
                 "content and every read's result; plus ungated rounds on a multi-thread runtime (coherence once everything has finished)",
         "assumptions": ["the sequential theorems treat each manager operation as atomic; the concurrent read-fill / write-through protocol (K3, fixed by 92ed186) is a separate transition-system model (CacheProto.v) per key with serialised writers, tied to the code by the proto step; the directory-level consequences are explored by the scheduling harness (reader parked between the database's answer and the cache fill)"],
     },
